@@ -72,6 +72,8 @@ func (a *Agent) TeamserverTaskPrepare(Command string, Console func(AgentID strin
 			switch Commands[1] {
 
 			case "list":
+				a.JobMtx.Lock()
+				defer a.JobMtx.Unlock()
 				if len(a.JobQueue) > 0 {
 					var ListTable string
 
@@ -101,6 +103,8 @@ func (a *Agent) TeamserverTaskPrepare(Command string, Console func(AgentID strin
 				break
 
 			case "clear":
+				a.JobMtx.Lock()
+				defer a.JobMtx.Unlock()
 				if len(a.JobQueue) > 0 {
 					var Jobs = len(a.JobQueue)
 					a.JobQueue = nil
